@@ -63,6 +63,11 @@ class UserAddNode(ActionGroup):
         super().__init__(tracks, actions=[])
         self.tracks: SolutionTracks  # Narrow type from base class
 
+        # Work on a copy: the track id and lineage id determined below must not be written
+        # into the caller's dictionary (a caller that re-uses it for the next node would
+        # otherwise pass this node's lineage id along)
+        attributes = dict(attributes)
+
         # Get keys from tracks features
         time_key = tracks.features.time_key
         track_id_key = tracks.features.tracklet_key
